@@ -24,12 +24,18 @@ for d in sorted(os.listdir(os.path.join(V, "seeded"))):
     kind = "missed"
     if viol:
         kind = "concrete failing input" if any("no-failing-input-found" not in l for l in viol) else "tie broken, no failing input found"
+    if os.environ.get("SEEDS_NO_RECORD"):          # a robustness run under another VERIF_SEED: report only
+        rows.append((d, rc, kind, round(time.time() - t0, 1)))
+        print(d, rc, kind, flush=True)
+        continue
     meta = json.load(open(os.path.join(p, "meta.json")))
     meta["detected_by"] = dict(check="./check %s --tier quick" % pid, exit=rc, kind=kind, violations=len(viol), seconds=round(time.time() - t0, 1))
     json.dump(meta, open(os.path.join(p, "meta.json"), "w"), indent=1)
     rows.append((d, rc, kind, round(time.time() - t0, 1)))
     print(d, rc, kind, flush=True)
 # the table is always regenerated from the meta.json files
+if os.environ.get("SEEDS_NO_RECORD"):
+    sys.exit(0)
 with open(os.path.join(V, "seeded", "RESULTS.md"), "w") as f:
     f.write("| seeded change | exit of quick check | how it was reported | seconds |\n|---|---|---|---|\n")
     for d in sorted(os.listdir(os.path.join(V, "seeded"))):
